@@ -148,7 +148,7 @@ func runC11(k int, rng *Rng) CaseResult {
 	clockNewCase(clockModeFor(cfg))
 	installHooks(stdHooks())
 	w := NewWorld("C11", rng, cfg, caseDir(k, "c11"))
-	w.storeWant = true
+	w.storeWant = false
 	defer w.Cleanup()
 	if !w.OpenCreate() {
 		return w.finish(nil, false, nil)
